@@ -168,6 +168,44 @@ def build(R):
                    'forall("k:%s", lambda k: self._pending_handlers.has(k) == old(self._pending_handlers.has(k)) '
                    '   and implies(self._pending_handlers.has(k), self._pending_handlers[k] == old(self._pending_handlers[k])))' % KEY],
                               modifies=['SIGLOG.events'])})
+    # ---- the periodic purge: expiry is reported to the listeners and completed in that order, then re-armed -------------------
+    E = 'zeroconf._engine'
+    R.shape('AsyncEngine', {'zc': 'Zeroconf', 'loop': 'opt[EventLoop]', '_cleanup_timer': 'opt[TimerHandle]'})
+    R.shape('Zeroconf', {'cache': 'DNSCache', 'record_manager': 'RecordManager', 'question_history': 'QuestionHistory'})
+    R.shape('RecordManager', {}, bases=[])
+    R.shape('QuestionHistory', {}, bases=[])
+    R.contract('zeroconf._history', 'QuestionHistory.async_expire', 'C13', params={'now': 'real'}, trusted=True, modifies=[],
+               note='C13 (verified there); touches only the question history')
+    R.contract('zeroconf._cache', 'DNSCache.async_expire', 'C05', params={'now': 'real'}, returns='list[DNSRecord]', trusted=True,
+               modifies=['self.cache', 'self.service_cache'],
+               ensures=['forall("j:int", lambda j: implies(0 <= j and j < len(result), result[j] is not None and expired(result[j], now)))'],
+               note='C05 (verified there): exactly the expired records, each once, removed from the cache')
+    R.contract('zeroconf._handlers.record_manager', 'RecordManager.async_updates', 'C06', params={'now': 'real', 'records': 'list[RecordUpdate]'},
+               trusted=True, modifies=['*'], ensures=['heap_eq("AsyncEngine._cleanup_timer")', 'heap_eq("AsyncEngine.loop")', 'heap_eq("AsyncEngine.zc")',
+                                                    'heap_eq("VTimers.events")', 'heap_eq("VClock.now")', 'heap_eq("TimerHandle.cancelled")',
+                                                    'heap_eq("Zeroconf.record_manager")'],
+               note='C06 (verified there): fans the batch out to every listener; listeners are arbitrary code that does not touch the engine, the timers or the clock')
+    R.contract('zeroconf._handlers.record_manager', 'RecordManager.async_updates_complete', 'C06', params={'notify': 'bool'},
+               trusted=True, modifies=['*'], ensures=['heap_eq("AsyncEngine._cleanup_timer")', 'heap_eq("AsyncEngine.loop")', 'heap_eq("AsyncEngine.zc")',
+                                                    'heap_eq("VTimers.events")', 'heap_eq("VClock.now")', 'heap_eq("TimerHandle.cancelled")'],
+               note='C06 (verified there)')
+    T0 = 'old(len(TIMERS.events))'
+    R.contract(E, 'AsyncEngine._async_cache_cleanup', PROP,
+               requires=['self.zc is not None and self.zc.cache is not None and self.zc.record_manager is not None and self.zc.question_history is not None',
+                         'self.loop is not None', 'not reported'],
+               ghost={'reported': 'bool'},
+               modifies=['*'],
+               at_calls={
+                   # expiry is REPORTED to the listeners before the batch is COMPLETED (browsers fire their queued Removed events
+                   # in the completion step), with the clock value the records were expired at
+                   'self.zc.record_manager.async_updates': ['now == CLOCK.now', 'ghost: reported = True'],
+                   'self.zc.record_manager.async_updates_complete': ['reported'],
+                   'self.zc.cache.async_expire': ['now == CLOCK.now'],
+               },
+               ensures=[
+                   # keeps running: the next purge is armed 10 s from now
+                   'len(TIMERS.events) == %s + 1 and TIMERS.events[%s][0] == CLOCK.now + 10000 and TIMERS.events[%s][1] is self '
+                   '   and TIMERS.events[%s][2] == mid("_async_cache_cleanup") and TIMERS.events[%s][3] is self._cleanup_timer' % (T0, T0, T0, T0, T0)])
     # ---- the step lemma for one (type, instance) and one datagram / purge report ---------------------------------------------
     # in0/in1: a pointer record of this identity is cached before / after the step (C06: adds = updates with previous None and
     # TTL > 0; removes = updates with a previous copy that are expired at arrival; C05 purge: reported (r, r) with r expired);
@@ -244,4 +282,4 @@ def configure(ctx, R):
     R.generators[(B, '_ServiceBrowserBase.async_update_records_complete')] = lambda g: (lambda t: {'self': t[0], '__env__': t[1]})(mk_browser(g))
 
 
-NO_CONCRETE = set()
+NO_CONCRETE = {'AsyncEngine._async_cache_cleanup'}
